@@ -601,8 +601,14 @@ def judge(P, roots, here):
                 rk = "panic"
             if rk:
                 free[rk] = free.get(rk, 0) + n
+    matched_at = {}
     for (f, kind, bb, key) in pending:
         rk = relaxed_key(f, kind, bb)
+        # one source site inlined into several callers is one site
+        site = (kind, f.where(bb))
+        if site in matched_at:
+            rows.append((f, kind, bb, key, matched_at[site]))
+            continue
         cand = None
         for fk in free:
             if free[fk] > 0 and (rk == fk or rk.startswith(fk) or fk.startswith(rk.split("|")[0]) and rk.split("|")[0] in ("bounds",) or
@@ -612,6 +618,7 @@ def judge(P, roots, here):
         if cand is not None:
             free[cand] -= 1
             rows.append((f, kind, bb, key, "reviewed (site moved or renamed; matched by kind and type)"))
+            matched_at[site] = "reviewed (site moved or renamed; matched by kind and type)"
             continue
         # an explicit unwrap that *replaces* a reviewed panic-capable site of the same function
         # (an index turned into `iter.next().unwrap()`) is a changed obligation, not a new one
